@@ -53,18 +53,31 @@ EXPLANATION = (
     "history): find_compatible_terms and simplify are evaluated twice on one path (module-level mutable state of "
     "simplify.py is part of the evaluated state and carried from the first call to the second) on a matrix of input "
     "pairs (A, B) that wrap the same sympy terms in containers with different provided target indices, in another order "
-    "or next to new terms; on every path the second call returns exactly what B returns alone under the same decisions.")
+    "or next to new terms; on every path the second call returns exactly what B returns alone under the same decisions. "
+    "R07g (order of Expr.terms): simplify is evaluated for every order of the terms of abstract expressions, with a model "
+    "of sympy (terms of one chosen class are equivalent: their difference is not a sum) answering the uninterpreted tests "
+    "and with the text of Term.substitute_contracted chosen per term; for every order the sum has one unchanged term per "
+    "class and all others substituted, the sum is the same for every order, and the unchanged term of a class is the one "
+    "with the smallest canonical text (for tied texts only the number of terms is required). R07h (premise of the merge "
+    "test): for terms and renamings incl. index names that tie in (number, letter) - j / j0, two different indices called "
+    "i - the renamed term, also written with its bra-ket (anti)symmetric tensors in the other orientation, is brought "
+    "into canonical form with indices.sort_idx_canonical and AntiSymmetricTensor._need_bra_ket_swap evaluated from the "
+    "source and mapped back: it has to be the canonical form of the term again, otherwise the map that "
+    "find_compatible_terms finds is discarded because term - other.subs(map) stays a sum; the R07e equivariance checks "
+    "use the same evaluated canonical form.")
 ASSUMPTIONS = [
     "completeness of the pattern fingerprints for arbitrary terms (that alpha-equivalent terms are always found) is "
     "decided only on the listed tables of small tensors/terms (bounded)",
-    "sympy semantics of .subs, Add, S.Zero and the canonical form of AntiSymmetricTensor are modelled, not analysed: "
-    "indices sorted per upper/lower part, parts swapped by space, then name, for bra-ket (anti)symmetric tensors; spin "
-    "is left empty in all tables",
+    "sympy semantics of .subs, Add and S.Zero are modelled, not analysed; of the canonical form of AntiSymmetricTensor the "
+    "sort key and the swap decision are evaluated from the source, that the constructor sorts each part by the key and "
+    "then swaps is modelled (decided by C06); spin is left empty in all tables; different index objects have different "
+    "dummy_index values",
     "that `term - substituted_other is not an Add` implies proportionality of the two terms is sympy behaviour (assumed)",
     "assumptions/target indices of the returned Expr are carried by Container.__radd__/__iadd__ and are not visible "
     "in the evaluated sum",
     "the `length` component of the prefilter key is implied by the tuple of descriptions and is not checked separately; "
-    "which term of a class becomes the key and the order in which maps are tried are not prescribed",
+    "which term of a class becomes the key of find_compatible_terms (the first of its input - R07g prescribes the order "
+    "simplify hands over) and the order in which maps are tried are not prescribed",
     "find_compatible_terms / simplify are evaluated for at most five terms and 24 maps per pair (bounded)",
     "R07f: histories of two calls on the listed input pairs; the sympy content of a term is an individual (equal iff the "
     "same term), assumptions other than the target indices are taken to be reflected in the sympy content (sym_tensors / "
@@ -96,10 +109,12 @@ class World:
         self.I = {}
 
     def idx(self, name):
+        """Index record for the label ``name``; ``i#2`` is a second, different index that is also called ``i``."""
         if name not in self.I:
             sp = _space(name)
             o = Obj(None, name)
-            o.attrs.update(name=name, space=sp, spin="", space_and_spin=(sp, ""))
+            o.attrs.update(name=name.split("#")[0], space=sp, spin="", space_and_spin=(sp, ""), _classes={"Index"},
+                           dummy_index=int.from_bytes(name.encode(), "big"))     # one number per individual
             self.I[name] = o
         return self.I[name]
 
@@ -119,9 +134,10 @@ _CLS = {"anti": {"AntiSymmetricTensor", "SymbolicTensor"}, "nonsym": {"NonSymmet
         "delta": {"KroneckerDelta"}, "pref": {"Number"}, "symbol": {"Symbol"}}
 
 
-def tspec(target, pattern, objs=(("A", "anti", "", ""),)):
-    """One abstract term: target names, {space: {index name: [pattern tokens]}}, objects (descr, class, upper, lower)."""
-    return dict(target=target, pattern=pattern, objs=tuple(objs))
+def tspec(target, pattern, objs=(("A", "anti", "", ""),), canon=None):
+    """One abstract term: target names, {space: {index name: [pattern tokens]}}, objects (descr, class, upper, lower);
+    ``canon``: the text of the term once its contracted indices are replaced by the lowest available ones."""
+    return dict(target=target, pattern=pattern, objs=tuple(objs), canon=canon)
 
 
 def build_terms(w, specs, prefix="t", sids=None):
@@ -143,6 +159,7 @@ def build_terms(w, specs, prefix="t", sids=None):
                        # the indices the term holds are those its pattern speaks about (none: a number / symbols)
                        idx=w.tup(names), contracted=w.tup([i for i in names if i not in sp["target"]]),
                        provided_target_idx=w.tup(sp["target"]), _n=max(1, len(objs)),
+                       _canon=sp.get("canon") or f"{prefix}{k:03d}",
                        _pattern={(s, ""): {w.idx(i): list(p) for i, p in d.items()} for s, d in sp["pattern"].items()})
         out.append(t)
     return out
@@ -174,7 +191,7 @@ class Probe:
             d = a[0] if a else kw.get("subsdict")
             if not isinstance(d, dict) or not all(isinstance(k, Obj) and isinstance(v, Obj) for k, v in d.items()):
                 return NotImplemented
-            return ("ORD", tuple(sorted((k.attrs["name"], v.attrs["name"]) for k, v in d.items())))
+            return ("ORD", tuple(sorted((k.name, v.name) for k, v in d.items())))
 
         def subs(sx, a, kw):
             r = a[0].term if isinstance(a[0], Obj) else a[0]
@@ -197,6 +214,10 @@ class Probe:
             if not e.attrs["_expanded"]:
                 e.attrs.update(_expanded=True, _n=len(e.attrs["_exp_terms"]), terms=tuple(e.attrs["_exp_terms"]))
             return e
+        def substitute_contracted(sx, a, kw):
+            # the term with the lowest available contracted indices: an object whose text is chosen by the scenario
+            return Obj(None, a[0].attrs["_canon"])
+
         def expr_ctor(sx, a, kw):
             # Expr(<number>, **assumptions): the wrapped number (start value of a sum)
             return a[0] if a and is_num(a[0]) else NotImplemented
@@ -207,7 +228,8 @@ class Probe:
                 return NotImplemented
             return t_add(*[x.term if isinstance(x, Obj) else x for x in a])
         return {"Term.pattern": pattern, "Obj.description": description, "order_substitutions": order_substitutions,
-                "subs": subs, "len": length, "Expr.expand": expand, "Expr": expr_ctor, "Add": add_ctor}
+                "subs": subs, "len": length, "Expr.expand": expand, "Expr": expr_ctor, "Add": add_ctor,
+                "Term.substitute_contracted": substitute_contracted}
 
 
 def _fz(v):
@@ -551,6 +573,11 @@ def fct_scenarios(tier):
         tspec("", {}, [NUM]), tspec("", P(occ={"i": ["p"]})), tspec("", {}, [NUM, SYM]), tspec("", P(occ={"j": ["p"]}))]
     sc["two different products of symbols"] = [tspec("", {}, [SYM]), tspec("", {}, [SYM, SYM]), tspec("", {}, [NUM, SYM])]
     sc["only a number"] = [tspec("", {}, [NUM])]
+    # names that share number and letter (i / i0) and two different indices with the same name
+    sc["index names that tie in number and letter"] = [
+        tspec("", P(occ={"i": ["p"], "i0": ["p"]})), tspec("", P(occ={"j0": ["p"], "j": ["p"]}))]
+    sc["two different indices with the same name"] = [
+        tspec("", P(occ={"i": ["p"], "i#2": ["q"]})), tspec("", P(occ={"i#2": ["p"], "i": ["q"]}))]
     sc["target index that one term does not hold"] = [
         tspec("ij", P(occ={"i": ["p"], "k": ["q"]})), tspec("ij", P(occ={"i": ["p"], "j": ["q"]}))]
     # larger tables, evaluated for substitutions that do not annihilate the term (the zero test is exercised above)
@@ -572,9 +599,9 @@ def fct_scenarios(tier):
     return sc, {k + " (non-vanishing substitutions)": v for k, v in nz.items()}
 
 
-def _sx(ctx, what, probe, max_paths=60000):
+def _sx(ctx, what, probe, max_paths=60000, **kw):
     return Symex(ctx.model, inline=_inline_simplify, hooks=probe.hooks(), what=what, max_paths=max_paths, max_steps=2000000,
-                 obj_identity=True)
+                 obj_identity=True, **kw)
 
 
 def r07abc_partition(ctx):
@@ -1033,27 +1060,61 @@ def r07e_terms(ctx):
     ctx.floor(rule, "index patterns compared", len(entries), 30)
 
 
-def _canon_key(n):
-    return (_space(n)[0], "", int(n[1:]) if n[1:] else 0, n[0])
+class Canon:
+    """The canonical form a tensor gets on construction, with the two decisions of sympy_objects evaluated from the source:
+    the sort key of an index (indices.sort_idx_canonical) and the bra/ket swap (AntiSymmetricTensor._need_bra_ket_swap).
+    That the constructor sorts both parts by the key and then asks for the swap is modelled (C06 decides it)."""
 
+    def __init__(self, ctx):
+        self.sx = Symex(ctx.model, inline=lambda q: q == "indices:sort_idx_canonical" or q.startswith("sympy_objects:"),
+                        what="canonical form of a tensor", max_paths=16, obj_identity=True)
+        self.keyfn = ctx.model.fn("indices:sort_idx_canonical")
+        self.swapfn = ctx.model.fn("sympy_objects:AntiSymmetricTensor._need_bra_ket_swap")
+        self._key, self._swap = {}, {}
 
-def canon_tensor(ts):
-    """Model of the canonical form sympy_objects gives a tensor: parts sorted, bra/ket swapped for (anti)symmetric ones."""
-    if ts["kind"] not in ANTI:
-        return dict(ts)
-    up, lo = tuple(sorted(ts["upper"], key=_canon_key)), tuple(sorted(ts["lower"], key=_canon_key))
-    if ts["bks"] != 0 and len(up) == len(lo):
-        su, sl = [_space(x)[0] for x in up], [_space(x)[0] for x in lo]
-        nu, nl = [(_canon_key(x)[2], x[0]) for x in up], [(_canon_key(x)[2], x[0]) for x in lo]
-        if sl < su or (sl == su and nl < nu):
+    def key(self, label):
+        if label not in self._key:
+            v = _one(self.sx.run(self.keyfn, lambda: dict(idx=World().idx(label))), f"sort key of {label}")
+            if not isinstance(v, tuple) or any(isinstance(x, T) for x in v):
+                raise AnalysisError(f"C07: sort key of the index {label} is not decided: {show(v)[:120]}")
+            self._key[label] = v
+        return self._key[label]
+
+    def swap(self, up, lo):
+        if (up, lo) not in self._swap:
+            def mk():
+                w = World()
+                return dict(cls=None, upper=w.tup(up), lower=w.tup(lo))
+            v = _one(self.sx.run(self.swapfn, mk), f"bra/ket swap of {up}|{lo}")
+            if not isinstance(v, bool):
+                raise AnalysisError(f"C07: bra/ket swap of {up}|{lo} is not decided: {show(v)[:120]}")
+            self._swap[(up, lo)] = v
+        return self._swap[(up, lo)]
+
+    def tensor(self, ts):
+        if ts["kind"] not in ANTI:
+            return dict(ts)
+        up, lo = tuple(sorted(ts["upper"], key=self.key)), tuple(sorted(ts["lower"], key=self.key))
+        if ts["bks"] != 0 and len(up) == len(lo) and self.swap(up, lo):
             up, lo = lo, up
-    return dict(ts, upper=up, lower=lo)
+        return dict(ts, upper=up, lower=lo)
+
+    def rename(self, tensors, pi, order=None, flip=False):
+        """The tensors with renamed indices in canonical form; ``flip``: bra-ket (anti)symmetric tensors are written in the
+        other orientation first (the same tensor, up to the sign)."""
+        out = []
+        for ts in tensors:
+            up, lo = tuple(pi.get(x, x) for x in ts["upper"]), tuple(pi.get(x, x) for x in ts["lower"])
+            if flip and ts["kind"] in ANTI and ts["bks"] != 0:
+                up, lo = lo, up
+            out.append(self.tensor(dict(ts, upper=up, lower=lo)))
+        return [out[k] for k in order] if order else out
 
 
-def rename(tensors, pi, order=None):
-    out = [canon_tensor(dict(ts, upper=tuple(pi.get(x, x) for x in ts["upper"]), lower=tuple(pi.get(x, x) for x in ts["lower"])))
-           for ts in tensors]
-    return [out[i] for i in order] if order else out
+def _canon(ctx):
+    if not hasattr(ctx, "_c07_canon"):
+        ctx._c07_canon = Canon(ctx)
+    return ctx._c07_canon
 
 
 def real_terms(tier):
@@ -1074,6 +1135,20 @@ def real_terms(tier):
     out.append(("V^ij_ab t^ab_ij squared amplitudes, i->k, j->l",
                 [tensor("antisymtensor", "V", "ij", "ab", 1), tensor("amplitude", "t2", "ab", "ij", 0, 2)], "",
                 {"i": "k", "j": "l"}, [1, 0]))
+    for bks in (1, -1):
+        # names that share number and letter: j / j0 and two different indices called i
+        out.append((f"d^j_j0 n_j,j0, d with bra-ket symmetry {bks}, (j,j0)->(k,i)",
+                    [tensor("antisymtensor", "d", ("j",), ("j0",), bks), tensor("nonsymtensor", "n", ("j", "j0"))], "",
+                    {"j": "k", "j0": "i"}, [1, 0]))
+        out.append((f"d^j_j0 n_j,j0, d with bra-ket symmetry {bks}, j<->j0",
+                    [tensor("antisymtensor", "d", ("j",), ("j0",), bks), tensor("nonsymtensor", "n", ("j", "j0"))], "",
+                    {"j": "j0", "j0": "j"}, None))
+        out.append((f"d^i_i#2 n_i,i#2 with two indices called i, d with bra-ket symmetry {bks}, i<->i#2",
+                    [tensor("antisymtensor", "d", ("i",), ("i#2",), bks), tensor("nonsymtensor", "n", ("i", "i#2"))], "",
+                    {"i": "i#2", "i#2": "i"}, None))
+        out.append((f"d^k,j_k0,j0 X_k,k0 Y_j,j0, d with bra-ket symmetry {bks}, (k,k0)<->(j,j0)",
+                    [tensor("antisymtensor", "d", ("k", "j"), ("k0", "j0"), bks), tensor("nonsymtensor", "X", ("k", "k0")),
+                     tensor("nonsymtensor", "Y", ("j", "j0"))], "", {"k": "j", "j": "k", "k0": "j0", "j0": "k0"}, [0, 2, 1]))
     out.append(("delta_ij X_ik Y_jl, (i,k)<->(j,l)",
                 [tensor("delta", "", "ij"), tensor("nonsymtensor", "X", "ik"), tensor("nonsymtensor", "X", "jl")], "",
                 {"i": "j", "j": "i", "k": "l", "l": "k"}, [0, 2, 1]))
@@ -1087,22 +1162,41 @@ def r07e_equivariance(ctx):
                obj_identity=True)
     n = 0
     for name, tensors, target, pi, order in real_terms(ctx.tier):
-        t1 = [canon_tensor(ts) for ts in tensors]
-        t2 = rename(tensors, pi, order)
+        cn = _canon(ctx)
+        t1 = cn.rename(tensors, {})
+        t2 = cn.rename(tensors, pi, order)
+        if ctx.want("R07h"):
+            # the premise of the merge test: the other term with the found map substituted IS the term.  The other term may be
+            # written with its bra-ket (anti)symmetric tensors in either orientation; mapping its canonical form back has to give
+            # the canonical form of the term again, otherwise `term - other.subs(map)` stays a sum of two equal terms
+            inv = {v: k for k, v in pi.items()}
+            for flip in (False, True):
+                other = cn.rename(tensors, pi, None, flip=flip)
+                back = cn.rename(other, inv)
+                bad_t = [(a_, b_) for a_, b_ in zip(t1, back) if (a_["upper"], a_["lower"]) != (b_["upper"], b_["lower"])]
+                ctx.check("R07h", cn.swapfn, not bad_t,
+                          f"{name}: the renamed term{' written in the other bra/ket orientation' if flip else ''} mapped back is the term",
+                          f"{name}: {_label(bad_t[0][0], target) if bad_t else ''} and the tensor obtained from the renamed term"
+                          f"{' (other orientation)' if flip else ''} by the inverse map, {_label(bad_t[0][1], target) if bad_t else ''}, are both "
+                          "canonical: the two orientations of a bra-ket symmetric tensor are not identified, simplify finds the map but "
+                          "`term - other.subs(map)` stays a sum and the alpha-equivalent terms are not merged",
+                          key=f"merge premise {name} {'flipped' if flip else 'as written'}")
+        n += 1
+        if not ctx.want("R07e"):
+            continue
         pats = []
         for tens in (t1, t2):
             pat = _one(sx.run(pfn, lambda: dict(self=build_term(World(), tens, tuple(target)), include_target_idx=True,
                                                 include_exponent=True)), f"pattern of {name}")
             if not (isinstance(pat, dict) and all(isinstance(v, dict) for v in pat.values())):
                 raise AnalysisError(f"C07: pattern of {name} is not a dict of dicts")
-            pats.append({s_.attrs["name"]: (k, list(lst)) for k, v in pat.items() for s_, lst in v.items()})
+            pats.append({s_.name: (k, list(lst)) for k, v in pat.items() for s_, lst in v.items()})
         bad = None
         for s_, (k, lst) in sorted(pats[0].items()):
             img = pi.get(s_, s_)
             if img not in pats[1] or pats[1][img] != (k, lst):
                 bad = (s_, img, lst, pats[1].get(img))
                 break
-        n += 1
         ctx.check(rule, pfn, bad is None and len(pats[0]) == len(pats[1]),
                   f"{name}: every index of the renamed term has the pattern of its preimage",
                   f"{name}: index {bad[0]} has the pattern {_cut(bad[2])}, its image {bad[1]} in the renamed term has "
@@ -1140,14 +1234,15 @@ def r07e_sweep(ctx, cap=24):
                 p = _one(sx.run(pfn, lambda: dict(self=build_term(World(), tl_, tuple(target)), include_target_idx=True,
                                                   include_exponent=True)), f"pattern of {name}")
                 return {s_.attrs["name"]: (k, list(lst)) for k, v in p.items() for s_, lst in v.items()}
-            p0 = pat([canon_tensor(t) for t in tens])
+            cn = _canon(ctx)
+            p0 = pat(cn.rename(tens, {}))
             bad = None
             perms = list(itertools.product(itertools.permutations(occ), itertools.permutations(virt)))
             step = max(1, len(perms) // cap)
             for po, pv in perms[::step]:
                 pi = dict(zip(occ, po))
                 pi.update(zip(virt, pv))
-                t2 = rename(tens, pi, list(reversed(range(len(tens)))))
+                t2 = cn.rename(tens, pi, list(reversed(range(len(tens)))))
                 p1 = pat(t2)
                 n += 1
                 for s_, v in p0.items():
@@ -1249,6 +1344,98 @@ def r07f_history(ctx):
     ctx.floor(rule, "paths of call histories", n, 8)
 
 
+
+# ---------------------------------------------------------------------------------------------------------------------
+# R07g: the result of simplify does not depend on the order of Expr.terms
+
+def order_scenarios(tier):
+    """name -> (terms, classes of mutually renamable terms (positions), canonical texts tie inside a class?)"""
+    one = lambda x, c, d="A": tspec("", P(occ={x: ["p"]}), [(d, "anti", "", "")], canon=c)
+    sc = {
+        "three alike terms, distinct canonical texts": ([one("i", "A_b"), one("j", "A_a"), one("k", "A_c")], [{0, 1, 2}], False),
+        "two classes, interleaved": ([one("i", "A_d"), one("j", "B_c", "B"), one("k", "A_a"), one("l", "B_b", "B")], [{0, 2}, {1, 3}], False),
+        "alike terms that are not all equivalent": ([one("i", "A_c"), one("j", "A_b"), one("k", "A_a")], [{0, 2}, {1}], False),
+        "equivalent terms with the same canonical text": ([one("i", "A_a"), one("j", "A_a"), one("k", "B_a", "B")], [{0, 1}, {2}], True),
+        "a number between two alike terms": ([one("i", "A_b"), tspec("", {}, [("prefactor", "pref", "", "")], canon="1"), one("j", "A_a")],
+                                             [{0, 2}, {1}], False),
+    }
+    if tier == "thorough":
+        sc["four alike terms in two equivalence classes"] = ([one("i", "A_d"), one("j", "A_c"), one("k", "A_b"), one("l", "A_a")],
+                                                             [{0, 3}, {1, 2}], False)
+    return sc
+
+
+def r07g_order(ctx, cap=24):
+    rule = "R07g"
+    fn = ctx.model.fn(SIMP)
+    n = 0
+    for name, (specs, classes, tie) in order_scenarios(ctx.tier).items():
+        cls_of = {i: k for k, c in enumerate(classes) for i in c}
+
+        def oracle(sx, atom):
+            # model of sympy: the difference of a term and a substituted term is a sum unless the terms are equivalent
+            if atom.op == "isinstance" and atom.args[1] == "Add":
+                d = PathFacts._diff(atom.args[0])
+                if d is not None and d[0] in cls_of and d[1] in cls_of:
+                    return cls_of[d[0]] != cls_of[d[1]]
+            if atom.op == "cmp" and atom.args[0] in ("is", "==") and any(_is_zero_sym(x) for x in atom.args[1:]):
+                return False        # neither the terms nor the substituted terms vanish
+            return None
+        results = {}
+        perms = list(itertools.permutations(range(len(specs))))
+        for perm in perms[::max(1, len(perms) // cap)]:
+            probe = Probe(nonzero=True)
+            sx = _sx(ctx, f"simplify[order {name}]", probe, oracle=oracle)
+
+            def mk():
+                w = World()
+                e = Obj("expr_container:Expr", "expr")
+                ts = build_terms(w, [specs[i] for i in perm], sids=list(perm))
+                e.attrs.update(_expanded=True, _exp_terms=ts, _n=len(ts), terms=tuple(ts), sympy=T("attr", sym("expr"), "sympy"))
+                return dict(expr=e)
+            outs = sx.run(fn, mk)
+            n += 1
+            if len(outs) != 1 or outs[0].kind != "return" or isinstance(outs[0].value, Obj):
+                results[perm] = ("?", repr(outs[:2]))
+                continue
+            bare, subst, odd = [], [], []
+            for c, fs in expand_products(outs[0].value):
+                if c == 1 and len(fs) == 1 and _term_no(fs[0]) is not None:
+                    bare.append(_term_no(fs[0]))
+                elif c == 1 and len(fs) == 1 and _sub_token(fs[0]) is not None and _sub_token(fs[0])[0] is not None:
+                    subst.append(_sub_token(fs[0])[:2])
+                else:
+                    odd.append(show(fs)[:80])
+            results[perm] = (tuple(sorted(bare)), tuple(sorted(subst, key=repr)), tuple(odd))
+        ident = tuple(range(len(specs)))
+        bad_shape = [(p_, r) for p_, r in results.items() if r[0] == "?" or r[2]]
+        ctx.check(rule, fn, not bad_shape, f"{name}: one sum of terms and substituted terms for each of the {len(results)} orders",
+                  f"{name}: order {bad_shape[0][0] if bad_shape else ''} gives {_cut(repr(bad_shape[0][1])) if bad_shape else ''}",
+                  key=f"order {name} / shape")
+        if bad_shape:
+            continue
+        # the number of terms: one per class of equivalent terms, all others substituted, for every order
+        wrong = [(p_, r) for p_, r in results.items()
+                 if sorted(cls_of[i] for i in r[0]) != list(range(len(classes))) or len(r[0]) + len(r[1]) != len(specs)]
+        ctx.check(rule, fn, not wrong, f"{name}: one unchanged term per class of equivalent terms, whatever the order of Expr.terms",
+                  f"{name}: with the terms in the order {wrong[0][0] if wrong else ''} the sum keeps the terms {wrong[0][1][0] if wrong else ''} "
+                  f"unchanged and substitutes {[j for j, _ in wrong[0][1][1]] if wrong else ''}; classes of equivalent terms: {classes}",
+                  key=f"order {name} / number of terms")
+        if tie:
+            continue
+        diff = [(p_, r) for p_, r in results.items() if r != results[ident]]
+        ctx.check(rule, fn, not diff, f"{name}: the same sum for every order of Expr.terms",
+                  f"{name}: with the terms in the order {diff[0][0] if diff else ''} the result keeps {diff[0][1][0] if diff else ''} and "
+                  f"substitutes {diff[0][1][1] if diff else ''}, in the order {ident} it keeps {results[ident][0]} and substitutes "
+                  f"{results[ident][1]}: the representative of equivalent terms depends on the order of the terms in the expression",
+                  key=f"order {name} / representative")
+        want = tuple(sorted(min(c, key=lambda i: specs[i]["canon"]) for c in classes))
+        ctx.check(rule, fn, results[ident][0] == want, f"{name}: equivalent terms are mapped onto the one with the smallest canonical text",
+                  f"{name}: terms {results[ident][0]} are kept, the smallest canonical texts of the classes belong to {want}",
+                  key=f"order {name} / smallest text")
+    ctx.floor(rule, "orders of Expr.terms evaluated", n, 20)
+
+
 def run(ctx):
     if ctx.want("R07a") or ctx.want("R07b") or ctx.want("R07c"):
         r07abc_partition(ctx)
@@ -1256,11 +1443,14 @@ def run(ctx):
         r07c_simplify(ctx)
     if ctx.want("R07f"):
         r07f_history(ctx)
+    if ctx.want("R07g"):
+        r07g_order(ctx)
     if ctx.want("R07e"):
         r07e_objects(ctx)
         r07e_terms(ctx)
+    if ctx.want("R07e") or ctx.want("R07h"):
         r07e_equivariance(ctx)
-        if ctx.tier == "thorough":
-            r07e_sweep(ctx)
+    if ctx.want("R07e") and ctx.tier == "thorough":
+        r07e_sweep(ctx)
     if ctx.want("R07d") or ctx.want("R08a"):
         c08.r08a(ctx, modules={"simplify"} if ctx.tier == "quick" else {"simplify", "expr_container", "reduce_expr"})
